@@ -579,6 +579,15 @@ impl<'ast, 'r, 'a> Visit<'ast> for Collector<'r, 'a> {
                     _ => visit::visit_expr(self, e),
                 }
             }
+            // R10: M.entry(K).insert_entry(V)  ->  __map_insert_entry(&mut M, K, V)
+            syn::Expr::MethodCall(m) if m.method == "insert_entry" && self.rw.on("R10") && m.args.len() == 1 && is_method(&m.receiver, "entry").map_or(false, |en| en.args.len() == 1) => {
+                let en = is_method(&m.receiver, "entry").unwrap();
+                let map = self.render(&en.receiver);
+                let k = self.render(&en.args[0]);
+                let v = self.render(&m.args[0]);
+                self.rw.log.push("R10 .entry(k).insert_entry(v) -> __map_insert_entry".to_string());
+                self.edits.push(Edit { range: rng(e), text: format!("__map_insert_entry(&mut {map}, {k}, {v})"), prio: 0 });
+            }
             // R5: E.replace('c', S)
             syn::Expr::MethodCall(m) if m.method == "replace" && self.rw.on("R5") && m.args.len() == 2 => {
                 let is_char = matches!(&m.args[0], syn::Expr::Lit(syn::ExprLit { lit: syn::Lit::Char(_), .. }));
